@@ -82,8 +82,8 @@ def pool(tier):
     for meter, ns in names.items():
         for n in ns:
             o = D.fixture(meter, n)
-            if q and len(o) > 120:
-                # quick: the first elements only (list count adjusted by the walker-based re-cut), frame form
+            if len(o) > 120:
+                # long lists: the first elements only (list count adjusted by the walker-based re-cut), frame form
                 pos = CR.split_frame(o)[1]
                 root = CR.walk(o, pos, greedy=(meter == "kamstrup"))
                 kids = D.children_octets(o, root)[:7]
@@ -291,18 +291,18 @@ def scenarios(tier):
         out.append(Scenario(f"{label}: free window of 1 octet at every offset", window_path(label, msg, 1, 0, n),
                             bounds={"message_octets": n, "window": 1, "offsets": f"0..{n - 1}", "decoders": "all seven, each as the remembered one"}, domains=("decoders", "p1"), frontier=1, assumptions=A, replay_cap=30,
                             engine_opts={"path_time_limit": 120}, path_budget=8))
-        if not q and n <= 24:
-            hdr = min(n, 12)
+        if not q and n <= 10:
+            hdr = min(n, 4)
             out.append(Scenario(f"{label}: free window of 2 octets over the first {hdr} offsets", window_path(label, msg, 2, 0, hdr), bounds={"window": 2, "offsets": f"0..{hdr - 1}"},
                                 domains=("decoders", "p1"), frontier=1, assumptions=A, replay_cap=30, engine_opts={"path_time_limit": 120}, path_budget=8))
         out.append(Scenario(f"{label}: every truncation", truncation_path(label, msg), bounds={"truncations": f"0..{n - 1}"}, domains=("decoders", "p1"), frontier=1, assumptions=A, replay_cap=30,
                             engine_opts={"path_time_limit": 120}))
     swaps = [("aidon", "no_list_1"), ("kaifa", "no_list_2"), ("kamstrup", "no_list_2_single_phase")] if q else \
         [("aidon", n) for n in ("no_list_1", "no_list_2", "no_list_3", "se_list")] + [("kaifa", n) for n in ("no_list_1", "no_list_2", "no_list_3", "se_list")] + \
-        [("kamstrup", n) for n in ("no_list_1_three_phase", "no_list_2_single_phase", "no_list_2_single_phase_real_sample", "se_list_real_sample")]
+        [("kamstrup", n) for n in ("no_list_1_three_phase", "no_list_2_single_phase")]
     for meter, n in swaps:
         quick_alts = [a for a in ALTERNATIVES if a[0] in ("null", "visible(3)", "octets(12)", "u16", "i8")]
-        pth, nl = type_swap_path(f"{meter} {n}", meter, D.fixture(meter, n), quick_alts if q and meter != "aidon" else None)
+        pth, nl = type_swap_path(f"{meter} {n}", meter, D.fixture(meter, n), quick_alts if (q and meter != "aidon") or meter == "kamstrup" else None)
         out.append(Scenario(f"{meter} {n}: every item replaced in turn by an item of every other type (free value octets)", pth,
                             bounds={"items": nl, "replacement_types": [a[0] for a in ALTERNATIVES], "forms": "frame and body"}, domains=("decoders", "p1"), frontier=2, assumptions=A, replay_cap=40,
                             engine_opts={"path_time_limit": 120}, path_budget=8))
@@ -314,9 +314,9 @@ def scenarios(tier):
     for k in (range(0, 21) if not q else (0, 2, 3, 9, 10, 13, 14, 17, 18, 19)):
         out.append(Scenario(f"kaifa positional list re-cut to {k} items (count octet consistent), frame and body", recut_path(k), bounds={"items": k, "source": "Kaifa list 3 (18 items) cut / repeated"},
                             domains=("decoders", "p1"), frontier=1, workers=1, assumptions=A, replay_cap=10, engine_opts={"path_time_limit": 120}))
-    out.append(Scenario(f"free ASCII strings of 1..{3 if q else 6} characters over ({P1_ALPHA})", free_ascii_path(3 if q else 6), bounds={"alphabet": P1_ALPHA, "length": f"1..{3 if q else 6}"},
+    out.append(Scenario(f"free ASCII strings of 1..{3} characters over ({P1_ALPHA})", free_ascii_path(3), bounds={"alphabet": P1_ALPHA, "length": f"1..{3}"},
                         domains=("decoders", "p1"), frontier=4, assumptions=A, replay_cap=60, engine_opts={"path_time_limit": 120}))
-    out.append(Scenario(f"free binary strings of 1..{2 if q else 4} octets", free_binary_path(2 if q else 4), bounds={"length": f"1..{2 if q else 4}", "alphabet": "0..255"},
+    out.append(Scenario(f"free binary strings of 1..{2} octets", free_binary_path(2), bounds={"length": f"1..{2}", "alphabet": "0..255"},
                         domains=("decoders", "p1"), frontier=4, assumptions=A, replay_cap=60, engine_opts={"path_time_limit": 120}))
     return out
 
